@@ -22,6 +22,7 @@ var layoutDirs = []string{".", "a", "ab", "abc", "ab1", "ab2", "a/x", "ab/x"}
 
 type layoutCase struct {
 	Files []string // relative to the module root
+	Spell string   // how the paths are spelled: clean, dotdot (dir/../dir/f.go), double-slash, dot (./)
 	Abs   []bool
 	Error string // "", missing, txt, type-error, two-modules
 }
@@ -37,9 +38,13 @@ func synthLayout(c explore.Chooser) *prog.Program {
 		lc.Files = append(lc.Files, filepath.Join(d, name))
 		lc.Abs = append(lc.Abs, form == 1 || (form == 2 && i%2 == 1))
 	}
+	lc.Spell = []string{"clean", "dotdot", "double-slash", "dot"}[s.Choose("spelling", 4)]
 	lc.Error = []string{"", "missing", "txt", "type-error", "two-modules", "directory", "type-error-in-import", "type-error-in-transitive-import"}[s.Choose("error-case", 8)]
 	js, _ := json.Marshal(lc)
 	feats := []string{fmt.Sprintf("files=%v", lc.Files), fmt.Sprintf("abs=%v", lc.Abs)}
+	if lc.Spell != "clean" {
+		feats = append(feats, "spelling="+lc.Spell)
+	}
 	if lc.Error != "" {
 		feats = append(feats, "error="+lc.Error)
 	}
@@ -96,12 +101,31 @@ func evalC17(e *Eval) {
 		e.Res.Internal = err.Error()
 		return
 	}
+	// legal spellings of the same files that are not in filepath.Clean form
+	spell := func(rel string) string {
+		dir, base := filepath.Dir(rel), filepath.Base(rel)
+		switch lc.Spell {
+		case "dotdot":
+			if dir == "." {
+				return "a/../" + base
+			}
+			return dir + "/../" + filepath.Base(dir) + "/" + base
+		case "double-slash":
+			if dir == "." {
+				return ".//" + base
+			}
+			return dir + "//" + base
+		case "dot":
+			return "./" + rel
+		}
+		return rel
+	}
 	var args []string
 	for i, f := range lc.Files {
 		if lc.Abs[i] {
-			args = append(args, filepath.Join(root, f))
+			args = append(args, root+"/"+spell(f))
 		} else {
-			args = append(args, f)
+			args = append(args, spell(f))
 		}
 	}
 	switch lc.Error {
